@@ -159,6 +159,19 @@ def identity_programs():
         ["try", [["try", [["throw", var("o")]], [["I1", "e", [["expr", ["setprop", var("e"), lit(2)]], ["throw", var("e")]]]], [echo("f1;")]]],
          [["E3", "e2", [tag("n=", ["prop", var("e2")]), ["expr", ["setprop", var("e2"), ["bin", "Mul", ["prop", var("e2")], lit(5)]]]]]], [echo(";f2;")]],
         tag("o.n=", ["prop", var("o")]), tag(";", ["hi", var("o")])]))
+    # errors raised by the interpreter itself are internal errors: catch (Exception | Error | Throwable) takes them, a user
+    # class does not; the finally blocks on the way run.  Undefined function, the three named-argument errors, a
+    # required parameter not passed
+    f3 = {"name": "f3", "params": [["a", [1]], ["b", [2]]], "body": [["return", ["bin", "Add", var("a"), var("b")]]]}
+    req = {"name": "req", "params": [["x", None], ["y", [1]]], "body": [["return", var("x")]]}
+    raisers = [["call", "nosuch", [lit(1)]], ["calln", "f3", [], [["zz", lit(1)]]], ["calln", "f3", [lit(1)], [["a", lit(2)]]],
+               ["calln", "f3", [], [["b", lit(1)], ["b", lit(2)]]], ["calln", "req", [], [["y", lit(2)]]], ["call", "req", []]]
+    for T in ("Exception", "Error", "Throwable", "E1"):
+        body = []
+        for i, rz in enumerate(raisers):
+            body.append(["try", [echo("t%d;" % i), ["expr", ["assign", "r", rz]], echo("never")], [[T, "e", [echo("<%s>" % T)]]], [echo("f;")]])
+        out.append({"classes": CLASSES, "ifaces": IFACES, "funcs": [f3, req],
+                    "main": [["try", body, [["Throwable", None, [echo("outer;")]]], [echo("F")]]]})
     # rethrow keeps class, message and identity through an outer finally
     out.append(dict(base, main=[
         ["expr", ["assign", "o", ["new", "E2", lit("re")]]],
